@@ -5,7 +5,7 @@ Lemmas about the replay half of `RedoModel/LogRec.lean` (`lines`, `catlog`, `red
 Layout:
 * `lineStep` / `lines_cons` : the per-line loop is a fold of a one-line step;
 * `Step` / `Run`            : what one line / a whole log contributes (structure of the output);
-* `GoodChunk` / `LoopChunk` : what a complete replay / a line loop appends to the output;
+* `GoodChunk` / `LoopChunk` : what a complete replay / a line loop appends to the output (`already` holds cleaned names);
 * `catlog_good`             : every successful `catlog` call appends a `GoodChunk`;
 * fuel: `catlog_fuel_mono`, `catlog_no_outOfFuel`.
 -/
@@ -409,29 +409,37 @@ theorem lines_run (recurse : List Char → St → Except CErr (St × Nat)) (optU
 /-! ### What a complete replay appends -/
 
 /-- A chronological chunk `c` appended while `already` grew from `a` to `a'`: it only speaks about targets
-that were not in `a` and are in `a'`, and for every target it shows nothing or that target's log once. -/
+whose *cleaned* name was not in `a` and is in `a'`, a cleaned name is spoken for under one spelling only, and for
+every target it shows nothing or that target's log once. -/
 structure GoodChunk (F : Forest) (a : List (List Char)) (c : List Tagged) (a' : List (List Char)) : Prop where
   sub : a ⊆ a'
-  tags : ∀ e ∈ c, e.tag ∉ a ∧ e.tag ∈ a'
+  tags : ∀ e ∈ c, normpath e.tag ∉ a ∧ normpath e.tag ∈ a'
+  uniq : ∀ e1 ∈ c, ∀ e2 ∈ c, normpath e1.tag = normpath e2.tag → e1.tag = e2.tag
   raws : ∀ y, rawsOf y c = [] ∨ ∃ ls, lookup F y = some (some ls) ∧ rawsOf y c = rawLines ls
 
 theorem GoodChunk.nil (F : Forest) {a a' : List (List Char)} (h : a ⊆ a') : GoodChunk F a [] a' :=
-  ⟨h, fun _ he => (by cases he), fun _ => Or.inl rfl⟩
+  ⟨h, fun _ he => (by cases he), fun _ he => (by cases he), fun _ => Or.inl rfl⟩
 
 theorem GoodChunk.weaken {F : Forest} {a a' a'' : List (List Char)} {c : List Tagged}
     (h : GoodChunk F a c a') (hs : a' ⊆ a'') : GoodChunk F a c a'' :=
-  ⟨fun _ hx => hs (h.sub hx), fun e he => ⟨(h.tags e he).1, hs (h.tags e he).2⟩, h.raws⟩
+  ⟨fun _ hx => hs (h.sub hx), fun e he => ⟨(h.tags e he).1, hs (h.tags e he).2⟩, h.uniq, h.raws⟩
 
 theorem GoodChunk.append {F : Forest} {a a1 a2 : List (List Char)} {c1 c2 : List Tagged}
     (h1 : GoodChunk F a c1 a1) (h2 : GoodChunk F a1 c2 a2) : GoodChunk F a (c1 ++ c2) a2 := by
-  refine ⟨fun _ hx => h2.sub (h1.sub hx), ?_, ?_⟩
+  refine ⟨fun _ hx => h2.sub (h1.sub hx), ?_, ?_, ?_⟩
   · intro e he
     rcases List.mem_append.1 he with he | he
     · exact ⟨(h1.tags e he).1, h2.sub (h1.tags e he).2⟩
     · exact ⟨fun hin => (h2.tags e he).1 (h1.sub hin), (h2.tags e he).2⟩
+  · intro e1 he1 e2 he2 hn
+    rcases List.mem_append.1 he1 with he1 | he1 <;> rcases List.mem_append.1 he2 with he2 | he2
+    · exact h1.uniq e1 he1 e2 he2 hn
+    · exact absurd (hn ▸ (h1.tags e1 he1).2) (h2.tags e2 he2).1
+    · exact absurd (hn ▸ (h1.tags e2 he2).2) (h2.tags e1 he1).1
+    · exact h2.uniq e1 he1 e2 he2 hn
   · intro y
     rw [rawsOf_append]
-    by_cases hy : y ∈ a1
+    by_cases hy : normpath y ∈ a1
     · have : rawsOf y c2 = [] := rawsOf_eq_nil (fun e he heq => (h2.tags e he).1 (heq ▸ hy))
       rw [this, List.append_nil]
       exact h1.raws y
@@ -472,7 +480,7 @@ theorem filter_ne_of_all_ne {t : List Char} {c : List Tagged} (h : ∀ e ∈ c, 
   simp [h e he]
 
 theorem step_chunk {F : Forest} {recurse : List Char → St → Except CErr (St × Nat)} (hrec : RecSpec F recurse)
-    {t l : List Char} {st st1 : St} (ht : t ∈ st.already) (h : Step recurse t l st st1) :
+    {t l : List Char} {st st1 : St} (ht : normpath t ∈ st.already) (h : Step recurse t l st st1) :
     ∃ c, st1.out = c.reverse ++ st.out ∧ LoopChunk F t [l] st.already c st1.already := by
   cases h with
   | own own htag hraw hlen hout hal =>
@@ -513,7 +521,7 @@ theorem Step.already_sub {F : Forest} {recurse : List Char → St → Except CEr
     exact fun _ h => List.mem_cons_of_mem _ (hg.sub h)
 
 theorem run_chunk {F : Forest} {recurse : List Char → St → Except CErr (St × Nat)} (hrec : RecSpec F recurse)
-    {t : List Char} {ls : List (List Char)} {st st' : St} (ht : t ∈ st.already) (h : Run recurse t ls st st') :
+    {t : List Char} {ls : List (List Char)} {st st' : St} (ht : normpath t ∈ st.already) (h : Run recurse t ls st st') :
     ∃ c, st'.out = c.reverse ++ st.out ∧ LoopChunk F t ls st.already c st'.already := by
   induction h with
   | nil st => exact ⟨[], by simp, GoodChunk.nil F (fun _ h => h), rfl⟩
@@ -534,20 +542,30 @@ theorem lookup_mem {F : Forest} {t : List Char} {v : Option (List (List Char))} 
     simp only [beq_iff_eq] at h1
     exact h1 ▸ List.mem_map_of_mem h2
 
-/-- The line loop of `t`, entered with `t` just added to `already`, appends a good chunk. -/
+/-- The line loop of `t`, entered with the cleaned name of `t` just added to `already`, appends a good chunk. -/
 theorem LoopChunk.good {F : Forest} {t : List Char} {ls : List (List Char)} {a a' : List (List Char)}
-    {c : List Tagged} (h : LoopChunk F t ls (t :: a) c a') (hl : lookup F t = some (some ls)) (hta : t ∉ a) :
-    GoodChunk F a c a' := by
+    {c : List Tagged} (h : LoopChunk F t ls (normpath t :: a) c a') (hl : lookup F t = some (some ls))
+    (hta : normpath t ∉ a) : GoodChunk F a c a' := by
   have hsub : a ⊆ a' := fun _ hx => h.others.sub (List.mem_cons_of_mem _ hx)
-  have hta' : t ∈ a' := h.others.sub (List.mem_cons_self ..)
-  refine ⟨hsub, ?_, ?_⟩
+  have hta' : normpath t ∈ a' := h.others.sub (List.mem_cons_self ..)
+  have hoth : ∀ e ∈ c, e.tag ≠ t → e ∈ c.filter (fun e => decide (e.tag ≠ t)) := by
+    intro e he het
+    rw [List.mem_filter]; exact ⟨he, by simp [het]⟩
+  have hnt : ∀ e ∈ c, e.tag ≠ t → normpath e.tag ≠ normpath t := by
+    intro e he het hn
+    exact (h.others.tags e (hoth e he het)).1 (hn ▸ List.mem_cons_self ..)
+  refine ⟨hsub, ?_, ?_, ?_⟩
   · intro e he
     by_cases het : e.tag = t
     · rw [het]; exact ⟨hta, hta'⟩
-    · have : e ∈ c.filter (fun e => decide (e.tag ≠ t)) := by
-        rw [List.mem_filter]; exact ⟨he, by simp [het]⟩
-      have := h.others.tags e this
+    · have := h.others.tags e (hoth e he het)
       exact ⟨fun hin => this.1 (List.mem_cons_of_mem _ hin), this.2⟩
+  · intro e1 he1 e2 he2 hn
+    by_cases h1 : e1.tag = t <;> by_cases h2 : e2.tag = t
+    · rw [h1, h2]
+    · exact absurd (h1 ▸ hn.symm) (hnt e2 he2 h2)
+    · exact absurd (h2 ▸ hn) (hnt e1 he1 h1)
+    · exact h.others.uniq e1 (hoth e1 he1 h1) e2 (hoth e2 he2 h2) hn
   · intro y
     by_cases hy : y = t
     · subst hy; exact Or.inr ⟨ls, hl, h.mine⟩
@@ -562,7 +580,7 @@ theorem catlog_good (F : Forest) (optU optR : Bool) : ∀ fuel, RecSpec F (catlo
   | fuel + 1 => by
     intro x s s' n h
     rw [catlog] at h
-    by_cases hx : x ∈ s.already
+    by_cases hx : normpath x ∈ s.already
     · rw [if_pos hx] at h
       simp only [Except.ok.injEq, Prod.mk.injEq] at h
       rw [← h.1]
@@ -586,16 +604,16 @@ theorem catlog_good (F : Forest) (optU optR : Bool) : ∀ fuel, RecSpec F (catlo
 
 /-! ### Consequences for `catlog` -/
 
-theorem catlog_already {F : Forest} {optU optR : Bool} {fuel : Nat} {t : List Char} {st : St} (h : t ∈ st.already) :
-    catlog F optU optR (fuel + 1) t st = .ok (st, 0) := by
+theorem catlog_already {F : Forest} {optU optR : Bool} {fuel : Nat} {t : List Char} {st : St}
+    (h : normpath t ∈ st.already) : catlog F optU optR (fuel + 1) t st = .ok (st, 0) := by
   rw [catlog, if_pos h]
 
 /-- A successful replay of a target with a log is the line loop over that log. -/
 theorem catlog_run {F : Forest} {optU optR : Bool} {fuel : Nat} {t : List Char} {st st' : St} {n : Nat}
-    {ls : List (List Char)} (h : catlog F optU optR fuel t st = .ok (st', n)) (ht : t ∉ st.already)
+    {ls : List (List Char)} (h : catlog F optU optR fuel t st = .ok (st', n)) (ht : normpath t ∉ st.already)
     (hl : lookup F t = some (some ls)) :
     ∃ fuel', fuel = fuel' + 1 ∧
-      Run (catlog F optU optR fuel') t ls { st with already := t :: st.already } st' := by
+      Run (catlog F optU optR fuel') t ls { st with already := normpath t :: st.already } st' := by
   cases fuel with
   | zero => rw [catlog] at h; cases h
   | succ fuel' =>
@@ -606,11 +624,11 @@ theorem catlog_run {F : Forest} {optU optR : Bool} {fuel : Nat} {t : List Char} 
     exact lines_run _ _ _ _ _ _ _ _ _ _ h
 
 theorem catlog_mem_already {F : Forest} {optU optR : Bool} {fuel : Nat} {t : List Char} {st st' : St} {n : Nat}
-    (h : catlog F optU optR fuel t st = .ok (st', n)) : t ∈ st'.already := by
+    (h : catlog F optU optR fuel t st = .ok (st', n)) : normpath t ∈ st'.already := by
   cases fuel with
   | zero => rw [catlog] at h; cases h
   | succ fuel' =>
-    by_cases ht : t ∈ st.already
+    by_cases ht : normpath t ∈ st.already
     · rw [catlog_already ht] at h
       simp only [Except.ok.injEq, Prod.mk.injEq] at h
       rw [← h.1]; exact ht
@@ -630,8 +648,41 @@ theorem catlog_mem_already {F : Forest} {optU optR : Bool} {fuel : Nat} {t : Lis
           obtain ⟨c, _, hloop⟩ := run_chunk (catlog_good F optU optR f) (List.mem_cons_self ..) hrun
           exact hloop.others.sub (List.mem_cons_self ..)
 
+/-- Entries of a replay of `t` that are not tagged `t` belong to another cleaned name. -/
+theorem catlog_foreign {F : Forest} {optU optR : Bool} {fuel : Nat} {t : List Char} {st st' : St} {n : Nat}
+    (h : catlog F optU optR fuel t st = .ok (st', n)) :
+    ∀ e ∈ newOut st st', e.tag ≠ t → normpath e.tag ≠ normpath t := by
+  cases fuel with
+  | zero => rw [catlog] at h; cases h
+  | succ fuel' =>
+    by_cases ht : normpath t ∈ st.already
+    · rw [catlog_already ht] at h
+      simp only [Except.ok.injEq, Prod.mk.injEq] at h
+      rw [← h.1, newOut_self]; intro e he; cases he
+    · have h0 := h
+      rw [catlog, if_neg ht] at h
+      dsimp only at h
+      generalize hl : lookup F t = r at h
+      cases r with
+      | none => cases h
+      | some v =>
+        cases v with
+        | none =>
+          simp only [Except.ok.injEq, Prod.mk.injEq] at h
+          have : newOut st st' = [] := newOut_eq (c := []) (by rw [← h.1]; simp)
+          rw [this]; intro e he; cases he
+        | some ls =>
+          obtain ⟨f, hf, hrun⟩ := catlog_run h0 ht hl
+          obtain ⟨c, hc, hloop⟩ := run_chunk (catlog_good F optU optR f) (List.mem_cons_self ..) hrun
+          have hc' : st'.out = c.reverse ++ st.out := hc
+          rw [newOut_eq hc']
+          intro e he het hn
+          have hm : e ∈ c.filter (fun e => decide (e.tag ≠ t)) := by
+            rw [List.mem_filter]; exact ⟨he, by simp [het]⟩
+          exact (hloop.others.tags e hm).1 (hn ▸ List.mem_cons_self ..)
+
 theorem catlog_raws {F : Forest} {optU optR : Bool} {fuel : Nat} {t : List Char} {st st' : St} {n : Nat}
-    {ls : List (List Char)} (h : catlog F optU optR fuel t st = .ok (st', n)) (ht : t ∉ st.already)
+    {ls : List (List Char)} (h : catlog F optU optR fuel t st = .ok (st', n)) (ht : normpath t ∉ st.already)
     (hl : lookup F t = some (some ls)) : rawsOf t (newOut st st') = rawLines ls := by
   obtain ⟨f, hf, hrun⟩ := catlog_run h ht hl
   obtain ⟨c, hc, hloop⟩ := run_chunk (catlog_good F optU optR f) (List.mem_cons_self ..) hrun
@@ -641,34 +692,60 @@ theorem catlog_raws {F : Forest} {optU optR : Bool} {fuel : Nat} {t : List Char}
 
 /-! ### The top-level loop -/
 
-/-- Invariant of the output of a whole `redo-log` run. -/
+/-- In a good chunk two different spellings of one cleaned name never both have (raw) entries. -/
+theorem GoodChunk.once_per_cleaned {F : Forest} {a a' : List (List Char)} {c : List Tagged}
+    (h : GoodChunk F a c a') {x y : List Char} (hxy : x ≠ y) (hn : normpath x = normpath y) :
+    rawsOf x c = [] ∨ rawsOf y c = [] := by
+  by_cases hex : ∃ e ∈ c, e.tag = x
+  · obtain ⟨e, he, hex⟩ := hex
+    right
+    apply rawsOf_eq_nil
+    intro e2 he2 he2y
+    have := h.uniq e he e2 he2 (by rw [hex, he2y, hn])
+    exact hxy (by rw [← hex, this, he2y])
+  · left
+    exact rawsOf_eq_nil (fun e he heq => hex ⟨e, he, heq⟩)
+
+/-- Invariant of the output of a whole `redo-log` run: per target, nothing raw before its cleaned name is marked,
+and nothing or its log once; and two spellings of one cleaned name are never both shown. -/
 def InvSt (F : Forest) (st : St) : Prop :=
-  ∀ y, (y ∉ st.already → rawsOf y st.out.reverse = []) ∧
-    (rawsOf y st.out.reverse = [] ∨ ∃ ls, lookup F y = some (some ls) ∧ rawsOf y st.out.reverse = rawLines ls)
+  (∀ y, (normpath y ∉ st.already → rawsOf y st.out.reverse = []) ∧
+    (rawsOf y st.out.reverse = [] ∨ ∃ ls, lookup F y = some (some ls) ∧ rawsOf y st.out.reverse = rawLines ls)) ∧
+  ∀ x y, x ≠ y → normpath x = normpath y → rawsOf x st.out.reverse = [] ∨ rawsOf y st.out.reverse = []
 
 theorem InvSt.init (F : Forest) (a : List (List Char)) : InvSt F ⟨a, []⟩ :=
-  fun _ => ⟨fun _ => rfl, Or.inl rfl⟩
+  ⟨fun _ => ⟨fun _ => rfl, Or.inl rfl⟩, fun _ _ _ _ => Or.inl rfl⟩
 
 theorem InvSt.chunk {F : Forest} {st st' : St} {c : List Tagged} (hi : InvSt F st)
     (hc : st'.out = c.reverse ++ st.out) (hg : GoodChunk F st.already c st'.already) : InvSt F st' := by
-  intro y
   have ho : st'.out.reverse = st.out.reverse ++ c := by rw [hc]; simp
-  rw [ho, rawsOf_append]
-  by_cases hy : y ∈ st.already
-  · have : rawsOf y c = [] := rawsOf_eq_nil (fun e he heq => (hg.tags e he).1 (heq ▸ hy))
-    rw [this, List.append_nil]
-    exact ⟨fun hn => absurd (hg.sub hy) hn, (hi y).2⟩
-  · rw [(hi y).1 hy, List.nil_append]
-    refine ⟨fun hn => rawsOf_eq_nil (fun e he heq => hn (heq ▸ (hg.tags e he).2)), hg.raws y⟩
+  have hold : ∀ y, normpath y ∈ st.already → rawsOf y c = [] :=
+    fun y hy => rawsOf_eq_nil (fun e he heq => (hg.tags e he).1 (heq ▸ hy))
+  refine ⟨?_, ?_⟩
+  · intro y
+    rw [ho, rawsOf_append]
+    by_cases hy : normpath y ∈ st.already
+    · rw [hold y hy, List.append_nil]
+      exact ⟨fun hn => absurd (hg.sub hy) hn, (hi.1 y).2⟩
+    · rw [(hi.1 y).1 hy, List.nil_append]
+      refine ⟨fun hn => rawsOf_eq_nil (fun e he heq => hn (heq ▸ (hg.tags e he).2)), hg.raws y⟩
+  · intro x y hxy hn
+    rw [ho, rawsOf_append, rawsOf_append]
+    by_cases hy : normpath y ∈ st.already
+    · rw [hold y hy, hold x (hn ▸ hy), List.append_nil, List.append_nil]
+      exact hi.2 x y hxy hn
+    · rw [(hi.1 y).1 hy, (hi.1 x).1 (hn ▸ hy), List.nil_append, List.nil_append]
+      exact hg.once_per_cleaned hxy hn
 
 theorem InvSt.emit_record {F : Forest} {st : St} (hi : InvSt F st) (tag k x : List Char) :
     InvSt F (emit st tag (.record k x)) := by
-  intro y
-  have : rawsOf y (emit st tag (.record k x)).out.reverse = rawsOf y st.out.reverse := by
+  have : ∀ y, rawsOf y (emit st tag (.record k x)).out.reverse = rawsOf y st.out.reverse := by
+    intro y
     simp only [emit, List.reverse_cons, rawsOf_append]
     rw [rawsOf_cons_record]; simp [rawsOf_nil]
-  rw [this]
-  exact hi y
+  refine ⟨fun y => ?_, fun x' y hxy hn => ?_⟩
+  · rw [this]; exact hi.1 y
+  · rw [this, this]; exact hi.2 x' y hxy hn
 
 theorem redoLog_inv {F : Forest} {optU optR : Bool} {fuel : Nat} :
     ∀ (ts : List (List Char)) (st st' : St), InvSt F st → redoLog F optU optR fuel ts st = .ok st' → InvSt F st'
@@ -687,10 +764,10 @@ theorem redoLog_inv {F : Forest} {optU optR : Bool} {fuel : Nat} :
       obtain ⟨c, hout, hg⟩ := catlog_good F optU optR fuel _ _ _ _ hc
       exact redoLog_inv ts st1 st' ((hi.emit_record [] kDo t).chunk hout hg) h
 
-/-- Once a target is in `already`, nothing raw is ever attributed to it again. -/
+/-- Once the cleaned name of a target is in `already`, nothing raw is ever attributed to it again. -/
 theorem redoLog_frozen {F : Forest} {optU optR : Bool} {fuel : Nat} {y : List Char} :
-    ∀ (ts : List (List Char)) (st st' : St), y ∈ st.already → redoLog F optU optR fuel ts st = .ok st' →
-      y ∈ st'.already ∧ rawsOf y st'.out.reverse = rawsOf y st.out.reverse
+    ∀ (ts : List (List Char)) (st st' : St), normpath y ∈ st.already → redoLog F optU optR fuel ts st = .ok st' →
+      normpath y ∈ st'.already ∧ rawsOf y st'.out.reverse = rawsOf y st.out.reverse
   | [], st, st', hy, h => by
     rw [redoLog] at h
     simp only [Except.ok.injEq] at h
@@ -704,7 +781,7 @@ theorem redoLog_frozen {F : Forest} {optU optR : Bool} {fuel : Nat} {y : List Ch
       obtain ⟨st1, n⟩ := v
       dsimp only at h
       obtain ⟨c, hout, hg⟩ := catlog_good F optU optR fuel _ _ _ _ hc
-      have hy1 : y ∈ st1.already := hg.sub hy
+      have hy1 : normpath y ∈ st1.already := hg.sub hy
       obtain ⟨h1, h2⟩ := redoLog_frozen ts st1 st' hy1 h
       refine ⟨h1, ?_⟩
       rw [h2, hout]
@@ -814,7 +891,7 @@ theorem catlog_fuel_succ (F : Forest) (optU optR : Bool) :
   | fuel + 1 => by
     intro x s
     rw [catlog, catlog]
-    by_cases hx : x ∈ s.already
+    by_cases hx : normpath x ∈ s.already
     · left; rw [if_pos hx, if_pos hx]
     · rw [if_neg hx, if_neg hx]
       dsimp only
@@ -837,9 +914,9 @@ theorem catlog_fuel_mono {F : Forest} {optU optR : Bool} {fuel : Nat} {t : List 
     · rw [← ih, e]; rfl
     · rw [ih] at e; exact absurd e h
 
-/-- Keys of the forest (each once) that are not yet in `already`. -/
+/-- Cleaned names of the keys of the forest (each once) that are not yet in `already`. -/
 def pending (F : Forest) (a : List (List Char)) : Nat :=
-  (F.map Prod.fst).eraseDups.countP (fun k => decide (k ∉ a))
+  (F.map (fun e => normpath e.1)).eraseDups.countP (fun k => decide (k ∉ a))
 
 theorem countP_lt_of_mem {α : Type} {p q : α → Bool} {t : α} :
     ∀ {l : List α}, (∀ x ∈ l, p x = true → q x = true) → t ∈ l → q t = true → p t = false →
@@ -867,14 +944,16 @@ theorem pending_mono (F : Forest) {a a' : List (List Char)} (h : a ⊆ a') : pen
   simp only [decide_eq_true_eq] at hx ⊢
   exact fun hin => hx (h hin)
 
-theorem pending_lt (F : Forest) {a : List (List Char)} {t : List Char} (ht : t ∈ F.map Prod.fst) (hta : t ∉ a) :
-    pending F (t :: a) < pending F a := by
+theorem pending_lt (F : Forest) {a : List (List Char)} {t : List Char} (ht : t ∈ F.map Prod.fst)
+    (hta : normpath t ∉ a) : pending F (normpath t :: a) < pending F a := by
   unfold pending
-  apply countP_lt_of_mem (t := t)
+  apply countP_lt_of_mem (t := normpath t)
   · intro x _ hx
     simp only [decide_eq_true_eq, List.mem_cons, not_or] at hx ⊢
     exact hx.2
-  · exact List.mem_eraseDups.2 ht
+  · rw [List.mem_eraseDups]
+    obtain ⟨e, he, rfl⟩ := List.mem_map.1 ht
+    exact List.mem_map.2 ⟨e, he, rfl⟩
   · simpa using hta
   · simp
 
@@ -919,7 +998,7 @@ theorem catlog_no_outOfFuel (F : Forest) (optU optR : Bool) :
   | 0, _, _, h => by omega
   | fuel + 1, t, st, h => by
     rw [catlog]
-    by_cases ht : t ∈ st.already
+    by_cases ht : normpath t ∈ st.already
     · rw [if_pos ht]; intro h; cases h
     · rw [if_neg ht]
       dsimp only
@@ -931,7 +1010,7 @@ theorem catlog_no_outOfFuel (F : Forest) (optU optR : Bool) :
         | none => intro h; cases h
         | some ls =>
           have hlt := pending_lt F (lookup_mem hl) ht
-          apply lines_noOOF (F := F) (catlog_good F optU optR fuel) (a := t :: st.already)
+          apply lines_noOOF (F := F) (catlog_good F optU optR fuel) (a := normpath t :: st.already)
           · intro x s hs
             apply catlog_no_outOfFuel F optU optR fuel x s
             have := pending_mono F hs
@@ -1013,8 +1092,8 @@ theorem length_eraseDups_le : ∀ (n : Nat) (l : List (List Char)), l.length ≤
 
 theorem pending_le_length (F : Forest) (a : List (List Char)) : pending F a ≤ F.length := by
   unfold pending
-  have h1 := List.countP_le_length (p := fun k => decide (k ∉ a)) (l := (F.map Prod.fst).eraseDups)
-  have h2 := length_eraseDups_le _ (F.map Prod.fst) (Nat.le_refl _)
+  have h1 := List.countP_le_length (p := fun k => decide (k ∉ a)) (l := (F.map (fun e => normpath e.1)).eraseDups)
+  have h2 := length_eraseDups_le _ (F.map (fun e => normpath e.1)) (Nat.le_refl _)
   simp only [List.length_map] at h2
   omega
 
